@@ -1,6 +1,7 @@
 (* Conversions between wire S-expressions and the extracted Coq datatypes *)
 open Model
 open Sexp
+type string = Stdlib.String.t
 
 let rec nat_of_int (n : int) : nat = let rec go acc n = if n <= 0 then acc else go (S acc) (n - 1) in go O n
 let rec int_of_nat (n : nat) : int = let rec go acc = function O -> acc | S m -> go (acc + 1) m in go 0 n
